@@ -2,6 +2,7 @@
 """seed_prompt.py <ID> <n> — prints the prompt for a fresh bug-seeding sub-agent (property text only)."""
 import json, sys
 pid, n = sys.argv[1], sys.argv[2]
+avoid = sys.argv[3] if len(sys.argv) > 3 else ""
 p = {json.loads(l)['id']: json.loads(l) for l in open('/verif/properties.jsonl')}[pid]
 wt = f"/tmp/seed-{pid.lower()}-{n}"
 print(f"""You are an experienced Rust engineer helping to evaluate a verification effort for the open-source project project-chip/rs-matter (a Rust no_std implementation of the Matter smart-home protocol). You have your own scratch git worktree of the repository at {wt} (the crate is in {wt}/rs-matter). Work ONLY inside {wt}; do not look at or touch /repo, /verif or any other directory under /tmp. There is no network. DISK SPACE IS SCARCE and shared: run `export CARGO_INCREMENTAL=0 CARGO_PROFILE_DEV_DEBUG=0 CARGO_PROFILE_TEST_DEBUG=0` before every cargo command (debug info is most of a build's size), and when you are completely finished delete your build output with `rm -rf {wt}/target`.
@@ -19,7 +20,7 @@ RELEVANT CODE (anchors): files {', '.join(p['anchors']['files'])}; mechanisms: {
 YOUR TASK: produce ONE realistic change to the rs-matter source (the kind of regression a maintainer could plausibly introduce in a refactoring, optimisation or feature commit) that BREAKS this property while
   (a) the workspace still compiles (`cd {wt} && cargo build -p rs-matter --offline` and with the features `--no-default-features --features std,rustcrypto,log,groups,case-resumption,persistent-subscriptions,max-groups-per-fabric-4,max-group-keys-per-fabric-2,verif`),
   (b) the repository's existing test suite still passes: `cd {wt} && cargo test --workspace --no-fail-fast --offline 2>&1 | grep -E "^test result|FAILED|failed" | head -40` (the one test `test_commissioning_onoff_cluster` in tests/commissioning.rs fails already on the unchanged tree in this sandbox: ignore it; everything else must pass), and
-  (c) the breakage needs something SPECIFIC to manifest — a particular interleaving or timing, a fault or crash at a particular point, a multi-step sequence of operations, an unusual-but-legal input, a boundary value, or two cooperating sites that each look fine alone — i.e. NOT something that ordinary use or the existing tests would expose at once. Prefer a change of a few lines in one or two places, located in the code the anchors point at. Do not touch test files, Cargo manifests, build scripts or code guarded by `cfg(feature = "verif")` / `cfg(test)`.
+  (c) the breakage needs something SPECIFIC to manifest — a particular interleaving or timing, a fault or crash at a particular point, a multi-step sequence of operations, an unusual-but-legal input, a boundary value, or two cooperating sites that each look fine alone — i.e. NOT something that ordinary use or the existing tests would expose at once. Prefer a change of a few lines in one or two places, located in the code the anchors point at.{(" A colleague has already produced a change in " + avoid + "; choose a DIFFERENT function and a different mechanism (another clause of the statement, if it has several).") if avoid else ""} Do not touch test files, Cargo manifests, build scripts or code guarded by `cfg(feature = "verif")` / `cfg(test)`.
 
 Then write a DEMONSTRATION that the change really breaks the property: a new test file {wt}/rs-matter/tests/seeded_{pid.lower()}.rs (an integration test using only the public API; gate it with `#![cfg(feature = "std")]` and whatever features it needs), or, if the public API cannot reach it, a `#[cfg(test)] mod seeded_{pid.lower()}` unit-test module appended to the relevant source file, that FAILS with your change and PASSES without it. Keep it deterministic (no wall-clock sleeps beyond what the existing tests do, no random seeds). Verify both directions yourself: run the demonstration with the change (must fail), then revert ONLY the source change (keep the demonstration) with `git diff -- <changed source files> > /tmp/<your-worktree-name>.patch && git apply -R /tmp/<your-worktree-name>.patch`, run it again (must pass), then restore the change with `git apply`. Do NOT use `git stash`: the stash is shared between all worktrees of this repository and other engineers are working in sibling worktrees.
 
